@@ -305,7 +305,7 @@ pub fn run(ctx: &Ctx, rep: &mut Report) {
         rep.extra.insert("boundary_table".into(), J::Arr(rows));
     }
     // (iii) grammar-generated lines with exactly one production violated, and valid ones
-    for i in 0..ctx.budget(60_000, 2_500_000) {
+    for i in 0..ctx.budget(600_000, 6_000_000) {
         let mut b = random_build(&mut r, 120);
         let nn: u32 = b.n.parse().unwrap_or(1);
         let kk: u32 = b.k.parse().unwrap_or(1);
@@ -351,7 +351,7 @@ pub fn run(ctx: &Ctx, rep: &mut Report) {
         judge(rep, &b.line(), op, "*");
     }
     // (iv) random bytes
-    for _ in 0..ctx.budget(20_000, 500_000) {
+    for _ in 0..ctx.budget(100_000, 1_000_000) {
         let n = r.usize(0, 120);
         let l = r.bytes(n);
         judge(rep, &l, "random-bytes", "*");
